@@ -8,6 +8,8 @@ for p in sorted(glob.glob(os.path.join(VERIF, 'seeded', '*', 'meta.json')), key=
     caught = [k for k, v in m['caught_by'].items() if v['caught']]
     hist = m['history']
     first = 'yes' if hist.startswith('caught by the checks as they were') else ('other check' if hist.startswith('caught by') else 'after strengthening')
+    if not caught:
+        first = 'no'
     rows.append((m['id'], m['change'], ', '.join(caught) or 'NOT CAUGHT', first, '' if first == 'yes' else hist))
 import io, sys
 out = io.StringIO()
